@@ -187,6 +187,12 @@ def judge(ctx: core.Ctx, case: dict[str, Any]) -> None:
         return (not o.ok) and o.is_liquid_error and o.err_class == o_w.err_class
 
     if not o_l.ok:
+        if isinstance(core.root_cause(o_l.exc), RecursionError):
+            # one mechanism (also C09's finding): an expression nested deeper than the interpreter's stack; the parser's catch-all re-labels
+            # the RecursionError as a LiquidError, which no tolerance mode suppresses
+            ctx.evaluations += 1
+            ctx.violation(f"lax-raises-{st_l}:python-stack-exhausted-by-nested-expression", f"lax mode raised {o_l.err_class} at {st_l} (cause: RecursionError) for a source of {len(case['source'])} characters: {case['source']!r:.120}")
+            return
         v(f"lax-raises-{st_l}:{o_l.err_class}", f"lax mode raised {o_l.err_class} at {st_l}: {drv.safe_str(o_l.exc)[:100]}", lax_raises)
         return
     if not o_w.ok:
